@@ -4832,12 +4832,16 @@ class FlowIRConcrete(object):
         else:
             return self._flowir.get(FlowIR.FieldInterface)
 
-    def validate(self, top_level_folders: Optional[List[str]] = None)-> List[experiment.model.errors.FlowIRException]:
+    def validate(self, top_level_folders: Optional[List[str]] = None, is_primitive: bool = True
+                 )-> List[experiment.model.errors.FlowIRException]:
         """Validate a FlowIR definition
 
         args:
             top_level_folders: (optional) a list of names of folders that are in the root-directory of the
                package/instance
+            is_primitive: whether the definition is primitive (i.e. not replicated yet). A primitive definition may
+               refer to the `replica` variable which only exists after replication. Set to False for replicated
+               definitions so that a %(replica)s in a component that did not get replicated is reported
         
         Returns
             A list of FlowIRExceptions
@@ -4871,7 +4875,7 @@ class FlowIRConcrete(object):
                 #     components have just bindings, name, stage, and import fields)
                 if '$import' not in comp:
                     comp = self.get_component_configuration(
-                        comp_id, include_default=True, is_primitive=True, raw=False)
+                        comp_id, include_default=True, is_primitive=is_primitive, raw=False)
             except Exception as e:
                 out_errors.append(experiment.model.errors.FlowIRInconsistency(
                     reason=f"unable to get the component definition for component {comp_ref}",
